@@ -141,6 +141,16 @@ PanicIffOutOfRange ==
 
 Terminates == <>(pc \in {"done", "panic"})
 
+(* Refinement of the module whose invariants are PROVED for every length, request set and pivot sequence by TLAPS   *)
+(* (BulkAlg.tla, proofs in BulkProof.tla): the explicit stack is read as the set of its windows, the request as the *)
+(* set of its values; sorting / de-duplicating the request is a stuttering step there.  In-range requests only.      *)
+ZeroBased(s) == [x \in 0..(Len(s) - 1) |-> s[x + 1]]
+WholeFrame == IF RangeOf(req) = {} THEN {} ELSE {[lo |-> 0, hi |-> Len(init)]}
+PP == INSTANCE BulkAlg WITH Len0 <- Len(init), W <- RangeOf(req), arr <- ZeroBased(arr),
+                            frames <- IF pc = "entry" THEN WholeFrame ELSE {[lo |-> stack[x].lo, hi |-> stack[x].hi] : x \in DOMAIN stack},
+                            pc <- IF pc = "entry" THEN "run" ELSE pc
+RefinesProof == PP!Spec
+
 EmitInv ==
     (Emit /\ pc \in {"done", "panic"}) =>
         PrintT(<<"REPLAY", ToJson([ev |-> "bulk", a |-> init, idx |-> req,
